@@ -100,6 +100,19 @@ theorem C05_split_at_token_boundary (a b : Bytes) (h : Between (Lexer.foldBytes 
       vals (Lexer.foldBytes Lexer.St.init a 0).2 ++ vals (Lexer.foldBytes Lexer.St.init b 0).2 :=
   (lex_cut_between a b h).1
 
+/-- … and white space does guarantee it: when the first stream ends with a space or a newline
+that follows a complete number, keyword/operator, name or delimiter (or other white space), reading
+the two streams independently is reading their concatenation. -/
+theorem C05_split_at_white_space (a b : Bytes) (c : UInt8) (hc : c = 32 ∨ c = 10)
+    (hm : let st := (Lexer.foldBytes Lexer.St.init a 0).1
+          st.mode = .main ∨ st.mode = .keyword ∨ st.mode = .number ∨ st.mode = .literal ∨ st.mode = .wclose) :
+    vals (Lexer.foldBytes Lexer.St.init ((a ++ [c]) ++ b) 0).2 =
+      vals (Lexer.foldBytes Lexer.St.init (a ++ [c]) 0).2 ++ vals (Lexer.foldBytes Lexer.St.init b 0).2 := by
+  refine (lex_cut_between (a ++ [c]) b ?_).1
+  rw [Lexer.foldBytes_append]
+  simp only [Lexer.foldBytes]
+  exact between_after_space _ c _ hc hm
+
 /-- **The property from the bytes on**: when the byte-level front end (lexer model + assembler)
 turns the streams into the program `is` and the text model gives it the meaning `gl`, the
 interpreter run on those tokens reports exactly `gl`. -/
@@ -329,6 +342,9 @@ example : contentToks [asciiBytes "BT /F1 10 Tf (A) T", asciiBytes "j 1.5 0 Td [
 `C05_split_at_token_boundary`); after `(A) T` it is not. -/
 example : Between (Lexer.foldBytes Lexer.St.init (asciiBytes "(A) Tj ") 0).1 := by
   unfold Between; decide +kernel
+
+/-- After `1 0 0 1 5 5 cm` the scanner is in keyword mode (hypothesis of `C05_split_at_white_space`). -/
+example : (Lexer.foldBytes Lexer.St.init (asciiBytes "1 0 0 1 5 5 cm") 0).1.mode = .keyword := by decide +kernel
 
 example : ¬ Between (Lexer.foldBytes Lexer.St.init (asciiBytes "(A) T") 0).1 := by
   unfold Between; decide +kernel
